@@ -16,7 +16,9 @@ def run(c):
               "the synchronous suffix with gossip (votes, proposal, parts, catch-up commits, majority claims); violation only "
               "for no commit within 4000 handler steps of timely delivery; plus fresh-genesis networks with named validators; "
               "evaluations = handler steps on real nodes; non-trivial = run went beyond round 1")
-    c.assumptions = ["timely delivery is modelled as: deliver to a fixpoint (incl. what consensus/manager.go's gossip would "
+    c.assumptions = ["real reactor networks: real-time timeouts are far above in-memory delivery; the wait is at least 20x the "
+                     "calibrated fault-free time, otherwise the result is infrastructure (never a verdict)",
+                     "timely delivery is modelled as: deliver to a fixpoint (incl. what consensus/manager.go's gossip would "
                      "send, read from the round states), then fire the earliest timeout",
                      "node restarts inside prefixes: the *-restart configurations stop correct nodes between two handler calls "
                      "and rebuild them on the surviving database and WAL (real OnStart: state load, catchupReplay); the "
@@ -40,6 +42,11 @@ def run(c):
     c01.net_runs(c, cfgs, 60 if th else 6, ("net:liveness", "net:panic"))
     if not th:
         c01.net_runs(c, ["7eq-byz2", "5w-byz"], 2, ("net:liveness", "net:panic"))
+    # REAL reactor networks (ConsensusManager gossip, p2p switches over net.Pipe, real ticker, real receiveRoutine, file
+    # WAL): partition-heal, restart, crash at the gate, steered lag-by-one, late joiners, sparse topologies; every node's
+    # handler calls are explained by TLC; the vote-gossip logic is specified in GossipVotes.tla and replayed
+    import checks.reactornet as rn
+    rn.run_part(c)
     # restarted nodes (real receive routine + file WAL + catchupReplay) inside the adversarial prefixes
     c01.net_runs(c, ["4eq-restart", "4w-restart"] + (["5w-restart"] if th else []), 40 if th else 4, ("net:liveness", "net:panic"))
     # validator-set changes over 7 heights (+ restarts), and the default configuration in which round 1 of a height is
